@@ -1,139 +1,139 @@
 claim(
     "C11",
-    "DESIGN.md section 3, C11",
+    "DESIGN.md section 3, C11 and 7.2 / 7.2.1 (as built)",
     "TLA+ model of the VCF genotype order (GenotypeIndex.tla, Pascal.tla) checked exhaustively with TLC; every TLC state replayed into the compiled and interpreted index/enumerator/binomial functions; recorded calls on large arguments validated by TraceGenotypes.tla",
     "Bounded-exhaustive model checking of the ordering/bijection/enumerator model over a grid of (alleles, ploidy) instances and of Pascal rows in exact limb arithmetic, with conformance in both directions: each model state is executed on the real functions, and implementation calls on random large arguments are accepted or rejected by TLC.",
     "Trusts TLC/CommunityModules, Python big integers for limb conversion, and numba compiling the same source the interpreted run executes. Exhaustive only inside the stated grids; beyond them seeded sampling.",
 )
 claim(
     "C01",
-    "DESIGN.md section 3, C01",
+    "DESIGN.md section 3, C01 and 7.2 / 7.2.1 (as built)",
     "TLA+ model of the assemble moves on unordered genotypes (AssembleMoves.tla: mutation, interval recombination, interval / full-length dosage swap; exact-rational detailed balance at two temperatures, novelty, distinctness, reversibility, irreducibility) model-checked with TLC; every reachable bag replayed in every row order into the compiled option functions and the interpreted base_step/interval_step kernels (probability vectors captured by replacing random_choice); complete recorded fits validated by TraceAssemble.tla",
     "TLC visits every unordered genotype of each bounded (ploidy, SNVs, alleles) instance and proves, in exact rationals, that the modelled proposal structure and acceptance rule satisfy detailed balance for the tempered target; the conformance step shows that the real option lists, option counts, return counts, copy-count ratios and full transition probability vectors equal the model's for every ordered state, interval, move type and a set of real read sets / inbreeding / temperatures, checks detailed balance of the extracted real kernel directly, and validates whole sampler runs (temperature per rung, sweep completeness, exchange swapping matrices and carried likelihoods) event by event.",
     "Trusts TLC, numba compiling the same source that interpreted mode executes (probability vectors are only observable interpreted), and the repository's likelihood/prior functions for the factors u(G) (subjects of C04/C05). Exhaustive inside the stated grids; continuous parameters are sampled.",
 )
 claim(
     "C09",
-    "DESIGN.md section 3, C09",
+    "DESIGN.md section 3, C09 and 7.2 / 7.2.1 (as built)",
     "Faithful TLA+ model of the arraymap trie cache (ArrayMap.tla: node/value arrays, growth, flush) with a ghost abstract map, refinement invariants model-checked by TLC over all set histories; every generated edge replayed into the real arraymap comparing the whole stored structure; cache histories recorded from interpreted assemble / call / call-pedigree sampler runs validated by TraceCache.tla against the model with freshly recomputed likelihoods; same-seed trajectories with cache off / on / resized compared",
     "Exhaustive refinement check of the cache data structure within small constants (including repeated growth and flushes) bound to the code in both directions, plus trace validation of what the three real samplers store, are served and carry (every stored / served / carried value compared with a from-scratch recomputation on that sample's own reads), and trajectory equality for the assemble cache.",
     "Trusts TLC, numba compiling the interpreted source faithfully (cache histories are observed in interpreted mode; arraymap and trajectories also compiled), and log_likelihood as the reference for 'fresh' values. Sampler histories are sampled (seeded), the data-structure model is exhaustive within its constants.",
 )
 claim(
     "C15",
-    "DESIGN.md section 3, C15",
+    "DESIGN.md section 3, C15 and 7.2 / 7.2.1 (as built)",
     "TLA+ models of the mutation sweep (Sweep.tla, incl. the element width of the sub-step table), random_breaks (Breaks.tla) and fixed-homozygous reinsertion (FixHom.tla) model-checked with TLC; every sweep behaviour / partition / probability table replayed into the real compound_step (interpreted recorder and compiled black box), random_breaks and DenovoMCMC._mcmc; recorded sweeps, breaks and interval steps of real fits validated by TraceBreaks.tla",
     "Bounded-exhaustive model checking (every shuffle for small instances, SNV counts straddling the int8 boundary up to 300, every partition for n <= 8/11, every dyadic homozygosity table) with conformance in both directions; the compiled sweep is observed as a black box in which a never-visited cell is deterministically detectable.",
     "Trusts TLC and numba compiling the interpreted source faithfully. random_breaks support equality uses a fixed number of seeded draws per (n, breaks). FixHom assumes a threshold above 1/2.",
 )
 claim(
     "C20",
-    "DESIGN.md section 3, C20; notes/report-C12-C16-C20.md",
+    "DESIGN.md section 3, C20 and 7.2 / 7.2.1 (as built); notes/report-C12-C16-C20.md",
     "TLA+ model of the per-SNV projection (AtomizeOps/Atomize.tla, record domain spanned by build actions, emit/skip actions) model-checked with TLC; every record rendered to VCF and run through the real atomize_vcf, compared line by line; real program outputs, goldens and random records validated by TraceAtomize.tla",
     "TLC visits every haplotype record of the bounded domain (<= 2 ALT x <= 2 SNV sites over {A,C,G}, no-ALT / no-SNV / monomorphic sites / '.' alleles / five posterior modes incl. missing AFP/ACP, ploidies 1x 2x 4x) and checks the projection invariants; every record is replayed through the real program and every emitted line of real assemble / call / call-exact outputs is validated in TLC against the model.",
     "Trusts TLC and the Json/IOUtils modules, vlib/vcfgen.py rendering, vlib/vcftext.py parsing and Python Fraction. Exhaustive within the stated record domain; larger records are sampled (seeded).",
 )
 claim(
     "C16",
-    "DESIGN.md section 3, C16; notes/report-C12-C16-C20.md",
+    "DESIGN.md section 3, C16 and 7.2 / 7.2.1 (as built); notes/report-C12-C16-C20.md",
     "TLA+ model of allele filtering and prior-frequency handling (AlleleFilterOps/AlleleFilter.tla: step-wise machine checked against a declarative definition) model-checked with TLC; every state replayed into LocusPrior.from_variant_record; a covering subset run through call, call-exact and call-pedigree with every output record validated by TraceAlleleFilter.tla",
     "TLC enumerates every record x filter (7 operator spellings x thresholds x R/A-length field) x prior tag x Float/Integer type of the bounded domain and checks the stated clauses; every state is executed on the real record parser and a covering subset through the three calling programs (in-process and CLI), with FILTER/GT/AFP/GP/AFPRIOR/REFMASKED validated in TLC.",
     "Trusts TLC, pysam/htslib INFO parsing on the implementation side, vcfgen/vcftext, and the repository BAMs as read data. Values are integer or dyadic so that text, float32 and float64 agree; non-dyadic boundaries are not generated.",
 )
 claim(
     "C12",
-    "DESIGN.md section 3, C12; notes/report-C12-C16-C20.md",
+    "DESIGN.md section 3, C12 and 7.2 / 7.2.1 (as built); notes/report-C12-C16-C20.md",
     "TLA+ model of the haplotype codec (HapCodecOps/HapCodec.tla: SNV columns, first-appearance allele numbering, encode, decode) model-checked with TLC; every record replayed into from_variant_record / encode_haplotypes / format_haplotypes; (assemble record, call / call-exact record) pairs of real pipelines validated by TraceHapCodec.tla",
     "TLC visits every REF + up to 3 distinct ALT record over the bounded alphabets / lengths and checks the round trip and numbering invariants; each state is executed on the real codec (both SNV paths); the pipeline clause is decided by validating in TLC every pair produced by feeding golden, freshly assembled and synthetic REFMASKED assemble outputs to call and call-exact.",
     "Trusts TLC, vcfgen/vcftext. Assemble outputs are sampled on the repository's test data (threshold x ploidy x BAM-set grid), not exhaustive.",
 )
 claim(
     "C05",
-    "DESIGN.md section 3, C05; notes/report-C04-C05.md",
+    "DESIGN.md section 3, C05 and 7.2 / 7.2.1 (as built); notes/report-C04-C05.md",
     "TLA+ model of the multinomial / Dirichlet-multinomial genotype prior in exact integer (BigNat) weights (PriorWeights/Priors.tla: enumerator walk accumulating sums and moments) model-checked with TLC; every state replayed into the three prior functions (compiled and interpreted); recorded calls on random k/64 parameters validated by TracePriors.tla",
     "Bounded-exhaustive TLC model checking of properness, the zero-frequency clause, mean-dosage and homozygosity identities, the exact single-allele conditional, chain rule, marginal consistency and assemble = flat call over 1 680 (quick) / 3 492 (thorough) rational instances, with conformance in both directions.",
     "Trusts TLC and CommunityModules, Python fractions, and numba compiling the source that the interpreted run executes. Exhaustive only inside the stated rational grid; float parameters are covered numerically at 1e-9.",
 )
 claim(
     "C04",
-    "DESIGN.md section 3, C04; notes/report-C04-C05.md",
+    "DESIGN.md section 3, C04 and 7.2 / 7.2.1 (as built); notes/report-C04-C05.md",
     "TLA+ model of the read mixture likelihood in exact integer numerators (ReadWeights/Likelihood.tla: mixture machine and column-by-column rearrangement machine) model-checked with TLC; every state replayed into the seven likelihood entry points and structural_change (compiled and interpreted, single-read values reproduce the exact numerators); recorded calls on random tensors validated by TraceLikelihood.tla",
     "TLC enumerates every genotype x read set of each bounded shape (gaps, the 7/8 grid, zero-probability non-alleles, counts 0..2) and every genotype x arbitrary index vector x interval, checking order invariances, count = duplication, gap = 1 and redirect-evaluation = rearranged-genotype; conformance in both directions.",
     "Trusts TLC and CommunityModules, Python fractions and numba compiling the interpreted source. Exhaustive for the listed shapes (P <= 4, N <= 4) on the P(correct) = 7/8 grid; other tensors are covered by the TLC-checked theorems as code-vs-code relations at 1e-9.",
 )
 claim(
     "C17",
-    "DESIGN.md section 3, C17; notes/report-C17-C18.md",
+    "DESIGN.md section 3, C17 and 7.2 / 7.2.1 (as built); notes/report-C17-C18.md",
     "First-principles TLA+ model of gamete formation and trio inheritance in exact rationals (PedInheritance/Inheritance.tla: progeny / gamete walks) model-checked with TLC; every walk replayed into compiled trio_log_pmf, gamete_log_pmf, trio_valid, duo_valid; random recorded calls validated in BigNat by TraceInheritance.tla",
     "TLC checks sum-to-one, positive-iff-supported / positive-iff-valid, multinomial reduction, p-q symmetry and equivalence of subset-counting and closed-form gamete pmfs exactly in every state of the walk of every instance (19 family shapes quick, 31 thorough: ploidy 2/4/6, balanced / unbalanced / clonal tau, lambda, error, zero frequencies); conformance in both directions at 1e-9.",
     "Trusts TLC and CommunityModules Json, Python Fraction, numba compiling the same source; exhaustive only within the listed shapes and parameter menus.",
 )
 claim(
     "C18",
-    "DESIGN.md section 3, C18; notes/report-C17-C18.md",
+    "DESIGN.md section 3, C18 and 7.2 / 7.2.1 (as built); notes/report-C17-C18.md",
     "TLA+ model of the pedigree sampler moves over joint states (PedigreeSampler.tla: Gibbs with origin decomposition and Markov blanket, MH, parental allele swap) with exact-rational full-conditional / detailed-balance invariants model-checked by TLC; every joint state replayed into compiled gibbs_probabilities / metropolis_hastings_probabilities and interpreted pair_allele_swap_step with forced draws; recorded sampler runs validated by TracePedigree.tla",
     "TLC explores every joint state reachable by positive-probability moves in 10 (quick) / 15 (thorough) pedigrees (founders, duo, trios, selfing, half-sibs, two generations, mixed ploidy with unbalanced tau, double reduction, clone) and proves in exact arithmetic that the structured Gibbs weights equal the full conditional of the declarative joint and that MH and swap ratios equal the target ratio; conformance in both directions.",
     "Trusts TLC and Json, Python Fraction; pair_allele_swap_step is observed in full only interpreted (compiled on homozygous-parent states); reads restricted to the 7/8 rational family; pedigrees <= 5 individuals, K <= 3.",
 )
 claim(
     "C08",
-    "DESIGN.md section 3, C08; notes/report-C08.md",
+    "DESIGN.md section 3, C08 and 7.2 / 7.2.1 (as built); notes/report-C08.md",
     "TLA+ process model of the single / multi-core output orchestration (MultiCore.tla: main, writer, workers, pool exits, teardown; safety invariants + liveness under fairness) and of RNG reseeding (Reseed.tla) model-checked with TLC; every transition / maximal behaviour replayed in lock-step into the real _run_stdout_multi_core / _worker / _writer with a fake multiprocessing; recorded fork-pool runs, CLI run summaries and RNG-fingerprint histories validated by TraceMultiCore.tla / TraceReseed.tla",
     "TLC exhaustively checks every interleaving (quick <= 4 loci x <= 3 cores, thorough <= 6 x <= 4, with no failure / a failing locus at any position) for NoDuplicate, Intact, HeaderOnce, KillLast, Exit0Complete, FailNonZero, SingleCoreEquivalent, deadlock freedom and fair termination, and Reseed for OutputFunctionOfSeed; behaviours are replayed into the real orchestration code step by step; real multi-process runs and CLI runs of the four programs (cores, orders, subsets, repeats, failing loci) are validated against the spec.",
     "Trusts TLC and CommunityModules; multiprocessing.Pool / Manager().Queue() semantics as reproduced by the lock-step fake; real OS schedules are sampled, not enumerated; sha1 fingerprints and log normalisation in check_C08.py.",
 )
 claim(
     "C06",
-    "DESIGN.md section 3, C06; notes/report-C06-C19.md",
+    "DESIGN.md section 3, C06 and 7.2 / 7.2.1 (as built); notes/report-C06-C19.md",
     "TLA+ model of read extraction (ReadExtract.tla: filter cascade and mate merging per abstract alignment, for every configuration at once; RefSources.tla for the reference-mismatch clause) model-checked with TLC; every state concretised into real BAM/FASTA/VCF files (bamgen) and compared with extract_read_variants / encode_sample_reads and the assemble / call-exact command lines; repository and random BAMs abstracted by an independent SAM-text walker and validated by TraceReadExtract.tla",
     "TLC model-checks every bag of <= 2 (wide alphabet) / <= 3 (narrow) abstract alignments under 32-64 filter / read-group / layout configurations plus hundreds of seeded longer streams through the same machine (rows = passing read names, cell semantics, order confluence, filter monotonicity, pools, mismatch never silently used); conformance in both directions with real files.",
     "Trusts TLC and the CommunityModules Json/IOUtils; pysam/htslib file decoding, cross-checked by samwalk.py; bamgen's construction, cross-checked in both directions. Exhaustive within the bounds; longer streams and more SNVs are seeded samples.",
 )
 claim(
     "C19",
-    "DESIGN.md section 3, C19; notes/report-C06-C19.md",
+    "DESIGN.md section 3, C19 and 7.2 / 7.2.1 (as built); notes/report-C06-C19.md",
     "TLA+ model of find-snvs (FindSnvs.tla: filtered pileup depths for every read-filter configuration at once, threshold rule in exact rationals) model-checked with TLC; every state realised as BAMs and run through write_vcf_block (depth observed at its call site) and find_snvs.main; golden and random BAMs validated by TraceFindSnvs.tla through the SAM walker",
     "TLC model-checks every bag of <= 3 flagged / low-MAPQ alignments over 2 samples x 2 positions (16-24 filter configurations) and every depth table reachable with <= 4-5 plain reads (33-217 rational threshold configurations); every state is executed on the real program; a depth explained only by another filter configuration is classified as an ignored option.",
     "Trusts TLC and Json/IOUtils; pysam's pileup engine on unpaired reads with base qualities >= 30, cross-checked by the SAM walker; documentation-silent cases (uncovered sample with --maf > 0, non-dyadic population-mean boundary) are judged relationally.",
 )
 claim(
     "C07",
-    "DESIGN.md section 3, C07; notes/report-C07-C10.md",
+    "DESIGN.md section 3, C07 and 7.2 / 7.2.1 (as built); notes/report-C07-C10.md",
     "TLA+ record predicate WellFormed (VcfRecord.tla, 23 clauses) and configuration-space machine (Scenario.tla: program x --report set x dataset shape x ploidies) model-checked with TLC; every (program, --report set) executed on generated datasets and every emitted line, with the internal values captured from LocusAssemblyData, validated by TraceVcf.tla (also the 38 golden VCFs)",
     "TLC shows that the record the documented pipeline produces satisfies WellFormed for every configuration of the bounded space (3 456 quick / 126 144 thorough); the property itself is decided by trace validation: each output line of assemble, call, call-exact and call-pedigree on datasets containing every shape gets a TLC verdict naming failing clauses (cardinalities, GT shape, REF/ALT vs reference and SNVs, recounts, rounding).",
     "Trusts TLC and CommunityModules Json; the str.split/regex/decimal lexer vlib/vcflines.py; the capture of internals by wrapping format_vcf_record; pysam only to generate data and as a parse-only second opinion. Datasets are generated (seeded), not exhaustive.",
 )
 claim(
     "C10",
-    "DESIGN.md section 3, C10; notes/report-C07-C10.md",
+    "DESIGN.md section 3, C10 and 7.2 / 7.2.1 (as built); notes/report-C07-C10.md",
     "TLA+ data-flow model (SampleFlow.tla: encode / call with per-sample reseeding / haplotype union / labelling, two-run product over all configurations of 3 base samples) model-checked with TLC; every enumerated configuration run for real with call, call-exact and assemble (pool files, physically merged BAMs) and the relations between every ordered pair of logged runs validated by TraceSampleFlow.tla",
     "TLC checks ColumnIndependent, AssembleMonotone, PoolIsUnion and OrderPermutesColumns exhaustively over the two-run product of all subset / order / pool configurations (<= 2 units quick, <= 3 thorough); the same configurations are executed on generated and repository data and TLC evaluates the relations on the recorded outputs.",
     "Trusts TLC and Json; the vcflines.py lexer; pysam for writing merged BAMs; pool-vs-merged numeric fields are compared within one unit of the last printed place. call-pedigree is excluded (joint by design).",
 )
 claim(
     "C03",
-    "DESIGN.md section 3, C03; notes/report-C02-C03.md",
+    "DESIGN.md section 3, C03 and 7.2 / 7.2.1 (as built); notes/report-C02-C03.md",
     "TLA+ model of the exact posterior (CallModel/ExactPosterior.tla: streaming enumerator machine next to the declarative array path, exact integer joint weights) model-checked with TLC; every instance replayed into the compiled and interpreted API and a grid through `mchap call-exact` for each --report subset; step traces, random instances and every printed field validated by TraceExactPosterior.tla",
     "TLC exhaustively enumerates a bounded instance grid (haplotype menus x read bags x ploidy 1-4 x F in k/4 x frequency patterns incl. zeros; 5 427 quick / 62 544 thorough) and checks normalisation, arg-max, VCF order, support-class sum, AFP/ACP/AOP identities, agreement of the two paths and report-set independence over all 128 report subsets in exact arithmetic; conformance in both directions incl. the command line.",
     "Trusts TLC, CommunityModules Json/IOUtils, Python fractions, pysam/htslib for the generated files (outputs read back by an independent text parser) and numba compiling the interpreted source. Exhaustive within the grid; larger instances sampled.",
 )
 claim(
     "C02",
-    "DESIGN.md section 3, C02; notes/report-C02-C03.md",
+    "DESIGN.md section 3, C02 and 7.2 / 7.2.1 (as built); notes/report-C02-C03.md",
     "TLA+ model of the call sampler (CallSampler.tla: random-order single-site Gibbs / MH updates and sort, on the same exact model as C03) model-checked with TLC; every (ordered vector, position) evaluated on the real gibbs_options / mh_options (compiled, with cache, interpreted); recordings of CallingMCMC.fit and whole `mchap call` runs validated by TraceCallSampler.tla",
     "TLC visits every ordered allele vector and scan prefix of 98 (quick) / 816 (thorough) instances and checks the Gibbs full conditional, single-site and compound stationarity, MH detailed balance, permutation equivariance and target = call-exact posterior exactly; the real Gibbs rows must equal the exact conditional to 1e-9 and the real MH rows must be proper and satisfy detailed balance and stationarity at the exact target.",
     "As C03, plus random_choice / numpy RNG drawing from the row they are given, and the restriction to alleles of positive prior frequency (removed by `mchap call` before sampling) with K >= 2 for MH.",
 )
 claim(
     "C13",
-    "DESIGN.md section 3, C13; notes/report-C13.md",
+    "DESIGN.md section 3, C13 and 7.2 / 7.2.1 (as built); notes/report-C13.md",
     "TLA+ model of haplotype reporting (HapCallingDefs/HapCalling.tla: posterior bags with dyadic counts built by AddMass, Filter fixes the threshold, Order chooses any admissible ALT order and writes GT/AFP/AOP/GP) model-checked with TLC; every reported state replayed into call_posterior_haplotypes, _genotype_as_alleles, _genotype_posterior_as_array and the tail of assemble's call_sample_genotypes (fit stubbed with a trace realising the state's posterior); real assemble runs with captured posteriors validated by TraceHapCalling.tla",
     "TLC enumerates every collection of per-sample posteriors of the bounded instances (dyadic counts, 1-2 samples, six to nine thresholds incl. boundaries) and checks ALT iff threshold, REFMASKED iff reference below threshold, reference always allele 0 and unused when masked, ALT order, '.' exactly for excluded haplotypes, AFP / GP sums at most one and GP length; every state is executed on the real code path and real assemble runs are validated in the other direction.",
     "Trusts TLC and Json; dyadic counts make the implementation's float comparisons exact; ties (equal scores, equal modes) are relational. Real runs are sampled on repository and generated data.",
 )
 claim(
     "C14",
-    "DESIGN.md section 3, C14; notes/report-C14.md",
+    "DESIGN.md section 3, C14 and 7.2 / 7.2.1 (as built); notes/report-C14.md",
     "TLA+ model of trace summaries (TraceFunctionals/TraceSummary.tla: Record / Burn / Shuffle machine over haplotype, allele and pedigree traces; summaries as exact integer counts, order invariance as an action property) model-checked with TLC; every finished state replayed into GenotypeMultiTrace, GenotypeAllelesMultiTrace, PedigreeAllelesMultiTrace and mset functions (compiled and interpreted); summaries printed by real fits validated by TraceTraceSummary.tla",
     "TLC enumerates every small trace (chains x steps x ploidy x alleles, every within-genotype storage order for haplotype traces, every burn-in, relabelling) and checks exact burn-in per chain, normalisation, GPM <= SPM, array placement, support grouping, incongruence range and invariance of the summary under storage-order transpositions; every finished state is executed on the real trace / posterior classes and real program outputs are validated in the other direction. The known defect D8 (replicate_incongruence) is reported as a known finding.",
     "Trusts TLC and Json; all values are integer counts (probability = count / n); ties yield sets of admissible answers. Allele-trace incongruence is relational between the two readings the code bases use.",
